@@ -125,27 +125,75 @@ def obligations(tier):
              5: ("stralloc_catb", ["stralloc_catb.c", "stralloc_opyb.c", "stralloc_eady.c", "byte_copy.c"]),
              6: ("stralloc_copyb", ["stralloc_opyb.c", "stralloc_eady.c", "byte_copy.c"]),
              7: ("stralloc_append", ["stralloc_pend.c", "stralloc_eady.c"]),
-             8: ("quote.c:doit", ["stralloc_eady.c"])}
-    wit = {0: ["grown", "fresh", "already_big_enough", "refused_len_plus_n_wraps", "refused_size_wraps", "refused_by_allocator"],
+             8: ("quote.c:doit", [])}
+    wit = {0: ["grown", "grown_above_2G", "fresh", "already_big_enough", "refused_len_plus_n_wraps", "refused_size_wraps", "refused_by_allocator"],
            5: ["grown_and_copied", "fits_without_growth", "fresh", "refused_n_plus_1_wraps", "refused_len_plus_n_wraps", "refused_by_allocator"],
            6: ["fits_without_growth", "fresh", "refused_n_plus_1_wraps", "refused_by_allocator"],
-           7: ["grown_and_copied", "fits_without_growth", "fresh", "refused_by_allocator"],
-           8: ["quoted", "all_special_max_len", "fits_without_growth", "refused_2len_plus_2_wraps", "refused_by_allocator"]}
+           7: ["grown_and_copied", "fits_without_growth", "fresh", "refused_by_allocator"]}
     wit[1] = [w for w in wit[0] if w != "refused_len_plus_n_wraps"]       # ready() adds nothing to n
     wit[2] = wit[3] = wit[4] = wit[0]
+
+    def quote_wit(p):
+        if p["QL"] < 0:
+            return ["refused_2len_plus_2_wraps", "asked_for_more_than_2G", "refused_by_allocator"]
+        return ["quoted", "all_special", "refused_by_allocator"]
     for k, (fn, units) in kinds.items():
         obls.append(Obl(
             "alloc_arith_%s" % fn.replace("quote.c:", "quote_"), "alloc.c",
             progs=[Prog("quote.c")] if k == 8 else [],
             repo=units, sysrename=["malloc", "realloc", "free"], defines={"KIND": k},
+            grid=[{"QL": q} for q in ((-1, 0, 1, 3) if quick else (-1, 0, 1, 2, 3, 4, 6))] if k == 8 else None,
             unwind={"vf_realloc": 14, "ta_find": 7, "byte_copy": 11} if k in (5, 6) else
-                   {"vf_realloc": 14, "ta_find": 7, "doit": 25} if k == 8 else {"vf_realloc": 14, "ta_find": 7},
-            unwind_default=50, timeout=600,
+                   {"vf_realloc": 14, "ta_find": 7} if k == 7 else {},
+            unwind_default=40, timeout=600,
             functions=[fn if ":" in fn else "%s:%s" % (units[0], fn), "gen_allocdefs.h:GEN_ALLOC_readyplus"],
-            stubs=["malloc/realloc/free: tiny_alloc.h - exactly-sized objects, requests above the pool size or on demand are refused, sizes recorded"],
+            stubs=["malloc/realloc/free: recording stubs (KIND 0-4: fixed one-byte object or NULL; KIND 5-7: tiny_alloc.h, exactly-sized "
+                   "objects, requests above 32 bytes or on demand refused)", "quote doit: stralloc_ready is an observing stub"],
             assumes=["ANY 32-bit len, a, n (len <= a if allocated); users of readyplus start from an honest stralloc of <= 12 bytes"],
-            outside=["objects larger than the pool (64..4096 bytes): the arithmetic is proved for all values, the copy loops only for what fits"],
+            outside=["objects larger than 32 bytes: the arithmetic is proved for all values, the copy loops only for what fits",
+                     "quote doit: the int index j of the quoting loop for sain->len >= 2^30 (loop not executed at that size)"],
             claim="%s: returns 0 or leaves a >= len+n in true arithmetic; the size passed to malloc/realloc equals a*sizeof(type) "
                   "without 32-bit wrap; contents preserved/copied exactly; failure leaves the object unchanged" % fn,
-            expect_witnesses=wit[k]))
+            expect_witnesses=quote_wit if k == 8 else wit[k]))
+    # ---------------------------------------------------------------- (e) netstring length parsers
+    for mode, prog in ((0, "qmail-qmtpd.c"), (1, "qmail-qmqpd.c")):
+        obls.append(Obl(
+            "netstring_getlen_%s" % prog[6:-2], "netlen.c",
+            progs=[Prog(prog, sub=[(r"^main\(\)", "prog_main()", 1)])], lib=["ideal_substdio.c"], sysrename=["_exit"],
+            defines={"MODE": mode}, grid=[{"N": 12}], unwind_default=15, timeout=600, backend="cadical",
+            functions=["%s:getlen" % prog] + (["qmail-qmqpd.c:getbyte"] if mode else []),
+            stubs=["substdio_get on ssin: ideal stream (layer 0), EOF => _exit(0) as saferead does", "_exit: records status, ends the path"],
+            assumes=["input: any 0..12 bytes then EOF" + ("; bytesleft: any value" if mode else "")],
+            outside=["digit strings longer than 12 bytes (the guard `len > 200000000` is evaluated before every multiplication, so a longer "
+                     "string cannot get further than a 10-digit one: argument, not verdict)"],
+            claim="getlen() returns only lengths <= 2000000009 that are the decimal value of the digits before ':', else exits 111/100/0; "
+                  "no overflow", 
+            expect_witnesses=["returned", "maximum_2000000009", "empty_digits_is_zero", "too_long_111", "malformed_100", "eof_0"]))
+    # ---------------------------------------------------------------- (f) dns.c record walkers
+    obls.append(Obl(
+        "dns_walkers", "dnswalk.c",
+        progs=[Prog("dns.c")], sysrename=["dn_expand"],
+        grid=[{"FN": f} for f in (0, 1, 2)], defines={"B": 40},
+        unwind_default=42, timeout=600,
+        functions=["dns.c:findname", "dns.c:findip", "dns.c:findmx", "dns.c:getshort"],
+        stubs=["dn_expand: resolver(3) contract (-1, or 1..bytes-remaining and a NUL-terminated name; -1 for a position outside the message)"],
+        assumes=["response buffer of exactly 40 bytes, any contents; 0 < responselen < 40; responsepos - buf in 0..responselen+65535; "
+                 "numanswers, wanttype any int"],
+        outside=["dns_ip()/dns_mxip()/resolve() as a whole (64 KiB EDNS re-allocation, HEADER bit-fields: no verdict in 400 s, DESIGN C20)"],
+        claim="findname/findip/findmx from any walker state: every read lies inside the response buffer; result in {0,1,2,DNS_SOFT}",
+        expect_witnesses=["no_more_answers", "record_found", "record_claims_data_beyond_response", "other_type_skipped",
+                          "soft_position_beyond_end", "soft_truncated_record"]))
+    # ---------------------------------------------------------------- spawner reports
+    for prog_no, prog in ((0, "qmail-rspawn.c"), (1, "qmail-lspawn.c")):
+        obls.append(Obl(
+            "report_%s" % prog[6:-2], "report.c",
+            progs=[Prog(prog)], lib=["ideal_substdio.c"], defines={"PROG": prog_no},
+            grid=[{"L": l} for l in ((1, 3, 5) if quick else (1, 2, 3, 4, 5, 6, 7))],
+            unwind_default=lambda p: p["L"] + 3, unwind={"substdio_put": 64}, timeout=600,
+            functions=["%s:report" % prog],
+            stubs=["substdio on the report stream: ideal stream (layer 0)"],
+            assumes=["child output: exactly L bytes (grid) in an exactly-sized block, any contents (no NUL required); wait status 0..65535"],
+            outside=["outputs longer than the grid"],
+            claim="report() never reads outside the child's output block, whatever it contains, and always emits K, Z or D first",
+            expect_witnesses=lambda p: ["reported", "exit0_output_without_any_nul"] + (["exit0_last_field_unterminated"] if p["L"] >= 2 else [])))
     return obls
